@@ -54,6 +54,8 @@ def random_tree(rng, dirs, name, dsfx, postfixes, tagger, p_main=0.6, names=DROP
     t = Tree()
     if names is DROPIN_NAMES and rng.random() < 0.25:
         names = LOOKALIKE_NAMES + DROPIN_NAMES[:5]
+    if dsfx not in (b"", b".conf"):
+        names = [n.replace(b".conf", dsfx) for n in names]
     postfixes = list(postfixes) + [q for q in (decoys or []) if q not in postfixes]
     uid, gid = owner if owner else (None, None)
     seen = set()
@@ -81,7 +83,7 @@ def random_tree(rng, dirs, name, dsfx, postfixes, tagger, p_main=0.6, names=DROP
                 continue
             k = rng.choice([1, 1, 2, 2, 3, 4])
             for nm in rng.sample(names, k):
-                if nm == b"sub.conf" and rng.random() < 0.5:
+                if nm.startswith(b"sub.") and rng.random() < 0.5:
                     t.files.append((dd + b"/" + nm, "dir", None, None, None))
                 elif links and rng.random() < 0.1:
                     # a drop-in that is a symbolic link: to /dev/null (switches the name off) or to a file with another
@@ -112,7 +114,10 @@ SHAPES = ["project", "noproject", "dropinonly", "rootprefix", "parsingdirs", "co
 def shape_params(rng, shape):
     """-> dict(dirs, name, dsfx, postfixes, setup lines, call tokens builder)"""
     name = b"cfg"
-    sfx_spelling = rng.choice([b"conf", b".conf", None, b"conf", b""])
+    # the suffix word: mostly the usual one, sometimes a short, a dotted or a long one (the name of a file is
+    # <name>.<word> whatever the length of the word)
+    word = rng.choice([b"conf"] * 6 + [b"c", b"cfg", b"conf.local", b"configuration-of-the-local-site-v2"])
+    sfx_spelling = rng.choice([word, b"." + word, None, word, b""])
     dsfx = b"" if not sfx_spelling else (sfx_spelling if sfx_spelling.startswith(b".") else b"." + sfx_spelling)
     p = {"name": name, "suffix": sfx_spelling, "dsfx": dsfx, "pre": [], "slot_pre": None, "global_confdirs": None, "decoys": None}
     usr = b"/usr/etc"
